@@ -29,6 +29,9 @@ CONFIGS = [
          log=[("f", ())], fmt=".6g", sep=",", ext=".txt", size=(1.0, 2.0, 0.5)),
     dict(grid=(3, 1, 1), vecs=[("p2", "point2"), ("c3", "cell3")], overwrite=True, scale=1.0,
          log=[("v", (4,))], fmt=".3e", sep="\t", ext=".tsv", size=(1.0, 1.0, 1.0)),
+    # arrays larger than 64 KiB (more than 16384 single-precision values per array)
+    dict(grid=(140, 120, 0), vecs=[("rho", "cell1"), ("T", "point1")], overwrite=True, scale=1.0, log=[("f", ())], fmt=".3e", sep=",", ext=".txt",
+         size=(1.0, 1.0, 1.0), depth=2),
     dict(grid=(4, 3, 0), vecs=[("only", "neither")], overwrite=False, scale=1.0, log=[("z", ())], fmt="f", sep="|", ext=".txt", size=(1.0, 1.0, 1.0)),
 ]
 
@@ -159,7 +162,7 @@ def run(chk, replay_case=None, replay=None):
                         "domains where node-sized vectors are not multiples of the element count (the property's quantifier)"]
     depth = 4 if thorough else 3
     for ci, cfg in enumerate(CONFIGS):
-        name, mod, cfg_text = tlc.mc("Writers", consts(cfg, depth), invariants=["FilesOK", "ArraysOK", "Emit", "Adm"], extra_defs="Adm == Admissible")
+        name, mod, cfg_text = tlc.mc("Writers", consts(cfg, cfg.get("depth", depth)), invariants=["FilesOK", "ArraysOK", "Emit", "Adm"], extra_defs="Adm == Admissible")
         r = chk.tlc_must_hold(name, cfg_text, label="Writers config %d" % ci, extra_modules={name: mod}, workers=1)
         for tag, v in r.printed:
             if tag != "BEH":
